@@ -518,11 +518,12 @@ struct C11 : World {
       case 6: {  // ITV trigger in caption text channel T2 (decoded only while a TRIGGER handler is registered): fires at once
         // v & 8: with a [time:] attribute a few seconds ahead of the decoder's clock, the trigger is stored and fired by a later
         // vbi_decode() (vbi_deferred_trigger); the date is local time (mktime), the world assumes TZ=UTC - elsewhere the
-        // trigger fires at once or never, which the oracle does not care about
+        // trigger fires at once or never, which the oracle does not care about.  Month "00": parse_date() in trigger.c
+        // hands the month to mktime() without subtracting one, so "00" is January there.
         char url[48];
         if (v & 8) {
           int at = (int)s.ts + 1;  // fires within the next 25 frames
-          snprintf(url, sizeof url, "<http://zs.tv/%c>[time:19700101T%02d%02d%02d]", 'a' + (v & 7), at / 3600, (at / 60) % 60, at % 60);
+          snprintf(url, sizeof url, "<http://zs.tv/%c>[time:19700001T%02d%02d%02d]", 'a' + (v & 7), at / 3600, (at / 60) % 60, at % 60);
           if (strlen(url) & 1) { s.ctx->fail("harness:url", "odd trigger length"); return; }
         } else snprintf(url, sizeof url, "<http://zs.tv/%c>", 'a' + (v & 7));
         frame(sl_cc(21, 0x1C, 0x2A)); frame(sl_cc(21, 0x1C, 0x2A));  // text restart, channel T2
